@@ -113,7 +113,7 @@ def _run_one(prog, flavour, workdir):
     return (flavour, fails, count, combos, crash, None)
 
 
-def run_programs(check, programs, max_parallel=12, only_prefix=None):
+def run_programs(check, programs, max_parallel=12, only_prefix=None, remap_prefix=None):
     """compiles and runs the programs; fills the check's extra_* fields"""
     work = tempfile.mkdtemp(prefix="vfb-%s-" % check.prop, dir="/tmp")
     try:
@@ -136,6 +136,10 @@ def run_programs(check, programs, max_parallel=12, only_prefix=None):
                 k = re.sub(r"[^A-Za-z0-9_.-]+", "_", head.group(1))[:70] if head else "abnormal-exit"
                 bad.append(("%s:program-crash:%s" % (check.prop, k), crash))
             for key, detail in fails:
+                if remap_prefix:
+                    # every failure of these programs counts for the running property
+                    bad.append((remap_prefix + key.replace(":", "/", 1), detail))
+                    continue
                 if only_prefix and not key.startswith(only_prefix + ":"):
                     # another property's statement: that property's own check reports it
                     check.extra_hist["other-property-failures-seen"] = check.extra_hist.get("other-property-failures-seen", 0) + 1
